@@ -712,7 +712,195 @@ func ruleR16_4(c *Check) {
 	r.FollowAll(f, "meta restored after encodeEntry", enc, 0, selNode(restore), 0, exitSuccess, excuseErrNonNil(w))
 }
 
+// R16.5: the reader accepts every record the writer can produce, and pairs each entry of a
+// transaction with its own value pointer.
+func ruleR16_5(c *Check) {
+	w := c.W
+	r := c.Rule("R16.5", "E7+E4", 4, "safeRead.Entry treats a key length as a torn tail (errTruncate) only above a bound that is at least the largest key the write path accepts plus its 8-byte version suffix; logFile.iterate keeps the entries of an open transaction and their value pointers in two buffers that are appended to together, reset together, and delivered pairwise (fn(*entries[i], vptrs[i]))",
+		"a plausibility bound below the writer's maximum makes replay stop at the first large key and drop every later record; a pointer buffer that is not reset with the entry buffer hands the pointers of an earlier transaction to the entries of a later one")
+	// (a) the plausibility bound
+	md := w.F("badger.Txn.modify")
+	isKeyLen := w.lenOf(w.isField(w.Field("badger.Entry.Key")))
+	var maxKey int64 = -1
+	md.walk(func(x ast.Node) bool {
+		be, ok := x.(*ast.BinaryExpr)
+		if !ok || (be.Op != token.GTR && be.Op != token.GEQ && be.Op != token.LSS && be.Op != token.LEQ) {
+			return true
+		}
+		if isKeyLen(unparen(be.X)) {
+			if v, isC := w.constInt(be.Y); isC && v > maxKey {
+				maxKey = v
+			}
+		}
+		if isKeyLen(unparen(be.Y)) {
+			if v, isC := w.constInt(be.X); isC && v > maxKey {
+				maxKey = v
+			}
+		}
+		return true
+	})
+	if maxKey <= 0 {
+		panic(anchorError{"key-size limit of Txn.modify"})
+	}
+	en := w.F("badger.safeRead.Entry")
+	klen := w.Field("badger.header.klen")
+	isKlen := func(e ast.Expr) bool {
+		e = unparen(e)
+		for {
+			if w.fieldOf(e) == klen {
+				return true
+			}
+			call, ok := e.(*ast.CallExpr)
+			if !ok || len(call.Args) != 1 {
+				return false
+			}
+			if tv, ok := w.Info.Types[call.Fun]; !ok || !tv.IsType() {
+				return false
+			}
+			e = unparen(call.Args[0])
+		}
+	}
+	bounds := 0
+	for _, e := range en.allExits() {
+		rs, ok := e.Node.(*ast.ReturnStmt)
+		if !ok || len(rs.Results) != 2 {
+			continue
+		}
+		if id, isId := unparen(rs.Results[1]).(*ast.Ident); !isId || w.Use(id) != w.Obj("badger.errTruncate") {
+			continue
+		}
+		for _, g := range w.Guards(en, rs) {
+			if g.Implicit {
+				continue
+			}
+			var bound int64
+			op, ok := w.cmpRoles(g.Cond, g.Val, isKlen, func(e ast.Expr) bool {
+				v, isC := w.constInt(e)
+				if isC {
+					bound = v
+				}
+				return isC
+			})
+			if !ok {
+				continue
+			}
+			bounds++
+			// rejected when klen > bound (or >= bound): the smallest rejected length must exceed maxKey+8
+			smallestRejected := bound + 1
+			if op == token.GEQ {
+				smallestRejected = bound
+			}
+			okb := (op == token.GTR || op == token.GEQ) && smallestRejected > maxKey+8
+			r.Check(okb, en, "key-length plausibility bound admits every key the write path accepts", rs, "safeRead.Entry reports a torn tail for key lengths from "+itoa(smallestRejected)+", but Txn.modify accepts keys up to "+itoa(maxKey)+" bytes (+8 for the version)")
+		}
+	}
+	r.Exists(bounds >= 1, en, "key-length bound", nil, "safeRead.Entry has no plausibility bound on the key length")
+	// (b) the two buffers of an open transaction
+	it := w.F("badger.logFile.iterate")
+	var ents, ptrs *types.Var
+	it.walk(func(x ast.Node) bool {
+		vs, ok := x.(*ast.ValueSpec)
+		if !ok {
+			return true
+		}
+		for _, name := range vs.Names {
+			v, _ := w.Info.Defs[name].(*types.Var)
+			if v == nil {
+				continue
+			}
+			if sl, isSl := v.Type().Underlying().(*types.Slice); isSl {
+				if namedIs(sl.Elem(), modPath, "Entry") {
+					ents = v
+				}
+				if namedIs(sl.Elem(), modPath, "valuePointer") {
+					ptrs = v
+				}
+			}
+		}
+		return true
+	})
+	if ents == nil || ptrs == nil {
+		panic(anchorError{"entry and value-pointer buffers of logFile.iterate"})
+	}
+	kindOf := func(s ast.Node, v *types.Var) string {
+		as, ok := s.(*ast.AssignStmt)
+		if !ok || len(as.Rhs) != 1 {
+			return "other"
+		}
+		switch x := unparen(as.Rhs[0]).(type) {
+		case *ast.CallExpr:
+			if isBuiltin(w, x, "append") {
+				return "append"
+			}
+		case *ast.SliceExpr:
+			if hv, isC := w.constInt(x.High); x.High != nil && isC && hv == 0 {
+				return "reset"
+			}
+		}
+		if id, ok := unparen(as.Rhs[0]).(*ast.Ident); ok && id.Name == "nil" {
+			return "reset"
+		}
+		return "other"
+	}
+	blockOf := func(n ast.Node) ast.Node {
+		for p := w.parentOf(n); p != nil; p = w.parentOf(p) {
+			switch p.(type) {
+			case *ast.BlockStmt, *ast.CaseClause:
+				return p
+			}
+		}
+		return nil
+	}
+	pairs := 0
+	for _, pair := range [][2]*types.Var{{ents, ptrs}, {ptrs, ents}} {
+		for _, s := range it.Sites(selStoreVar(pair[0])) {
+			kd := kindOf(s, pair[0])
+			mate := false
+			for _, t := range it.Sites(selStoreVar(pair[1])) {
+				if blockOf(t) == blockOf(s) && kindOf(t, pair[1]) == kd {
+					mate = true
+				}
+			}
+			pairs++
+			r.Check(mate && kd != "other", it, "entry and pointer buffers change together ("+kd+")", s, "`"+pair[0].Name()+"` is changed ("+kd+") without the same change of `"+pair[1].Name()+"` in the same block")
+		}
+	}
+	r.Exists(pairs >= 4, it, "buffer updates", nil, "expected an append and a reset of both buffers")
+	// delivery: fn(*e, vp) in a range over the entries with vp = ptrs[i]
+	delivered := false
+	it.walk(func(x ast.Node) bool {
+		rs, ok := x.(*ast.RangeStmt)
+		if !ok {
+			return true
+		}
+		id, ok := unparen(rs.X).(*ast.Ident)
+		if !ok || w.Use(id) != types.Object(ents) || rs.Key == nil {
+			return true
+		}
+		kid, _ := rs.Key.(*ast.Ident)
+		ast.Inspect(rs.Body, func(m ast.Node) bool {
+			call, ok := m.(*ast.CallExpr)
+			if !ok || len(call.Args) != 2 {
+				return true
+			}
+			ix, ok := unparen(w.Origin(it, call.Args[1])).(*ast.IndexExpr)
+			if !ok {
+				return true
+			}
+			xid, ok1 := unparen(ix.X).(*ast.Ident)
+			iid, ok2 := unparen(ix.Index).(*ast.Ident)
+			if ok1 && ok2 && kid != nil && w.Use(xid) == types.Object(ptrs) && w.Use(iid) == w.Info.Defs[kid] {
+				delivered = true
+			}
+			return true
+		})
+		return true
+	})
+	r.Check(delivered, it, "entries delivered with the pointer at the same index", nil, "the delivery loop does not pass vptrs[i] with entries[i]")
+}
+
 func propC16(c *Check) {
+	ruleR16_5(c)
 	ruleR16_1(c)
 	ruleR16_2(c)
 	ruleR16_3(c)
